@@ -304,6 +304,10 @@ def check(run):
         ssrc[cid] = ('parseProperty (TigaPropertyBuilder), well-typed query', q)
         # statistical queries need a model whose channels are all broadcast
         j.case(cid, fork=True).model('xml', ps_model.replace('chan c, d[2];', 'broadcast chan c, d[2];') if re.match(r'(strategy \w+ = )?(Pr|E\[|simulate|minE|maxE|minPr|maxPr)', q) else ps_model).dump('errors').query(q, rt=False).end()
+    for k, q in enumerate(crashgen.DYN_QUERIES):
+        cid = 'qd%d' % k
+        ssrc[cid] = ('parseProperty (TigaPropertyBuilder), query over a dynamic template', q)
+        j.case(cid, fork=True).model('xml', crashgen.DYN_MODEL).dump('errors').query(q, rt=False).end()
     # size and depth: every recursive structure of the language at 300 / 3000 elements under the sanitizers (their stack frames are several times larger)
     for kind in crashgen.SCALE_KINDS:
         for n in (300, 3000):
